@@ -135,6 +135,11 @@ func buildBodyTypes(api *expr.APIExpr) (map[string]map[string]*EndpointBodies, m
 						panic(fmt.Sprintf("failed to project %q to view %q", body.Type.Name(), view))
 					}
 					body.Type = rt
+				} else if rt, ok := body.Type.(*expr.ResultTypeExpr); ok && len(rt.Views) > 0 {
+					// No static view: the server renders the result with
+					// any of its views. An attribute that one of the views
+					// does not have cannot be required in the response.
+					body = inAllViews(body, rt)
 				}
 				js := sf.schemafy(body)
 				res[resp.StatusCode] = append(res[resp.StatusCode], js)
@@ -144,6 +149,41 @@ func buildBodyTypes(api *expr.APIExpr) (map[string]map[string]*EndpointBodies, m
 		bodies[s.Name()] = sbodies
 	}
 	return bodies, sf.schemas
+}
+
+// inAllViews returns a copy of the given result type attribute whose required
+// attributes are limited to the ones that all the views of the result type
+// have.
+func inAllViews(att *expr.AttributeExpr, rt *expr.ResultTypeExpr) *expr.AttributeExpr {
+	if rt.Validation == nil || len(rt.Validation.Required) == 0 {
+		return att
+	}
+	var required []string
+	for _, n := range rt.Validation.Required {
+		all := true
+		for _, v := range rt.Views {
+			if v.AttributeExpr.Find(n) == nil {
+				all = false
+				break
+			}
+		}
+		if all {
+			required = append(required, n)
+		}
+	}
+	if len(required) == len(rt.Validation.Required) {
+		return att
+	}
+	dup := expr.Dup(rt).(*expr.ResultTypeExpr)
+	val := *rt.Validation
+	val.Required = required
+	dup.AttributeExpr.Validation = &val
+	return &expr.AttributeExpr{
+		Type:         dup,
+		Description:  att.Description,
+		Meta:         att.Meta,
+		UserExamples: att.UserExamples,
+	}
 }
 
 func (sf *schemafier) schemafy(attr *expr.AttributeExpr, noref ...bool) *openapi.Schema {
